@@ -1233,6 +1233,13 @@ func c19JudgeResolverDial(j *c19Judge, x c19ResolverAux, a *c19Ans) {
 	seen := map[string]int{}
 	for i, d := range a.Dials {
 		if d.Err != "" {
+			// an address the resolver made up cannot be parsed: that is not the sandbox's doing
+			for _, syn := range []string{"too many colons", "missing port", "missing ']'", "unexpected '['", "unexpected ']'", "unknown port", "invalid port"} {
+				if strings.Contains(d.Err, syn) {
+					j.viol("dial-address-malformed", i, x.class, d.Err, x.norm, "dial %d over a well-formed address list fails with an address syntax error: %s", i, d.Err)
+					return
+				}
+			}
 			j.out.Incon = fmt.Sprintf("dial %d over %q failed in the sandbox: %s", i, x.norm, d.Err)
 			return
 		}
